@@ -23,10 +23,10 @@ from vmon.probes import OMBOTT_DIR
 
 RULE = ('arrangements of 2-3 applications (incl. the module default application): alternating calls in every order, nested call (A handler calls B; '
         'depth 2 and 3; B same or other class of outcome: success, 404, crash), Request.copy() inside a handler then mutation of the copy, Response '
-        'use after the nested call, an application constructed while another is serving or (with its own errors_map) between requests, request errors mapped through the configuration (oversized bodies, HTML and JSON clients, per-application 413 handlers) in strictly alternating order, each followed by ordinary requests; on one thread, and on two '
+        'use after the nested call, an application constructed while another is serving or (with its own errors_map) between requests, request errors mapped through the configuration (oversized bodies, HTML and JSON clients, per-application 413 handlers) in strictly alternating order, attributes assigned on the config object of one application (debug, max_body_size, domain_map) and a custom reason phrase set on the response of one application, each followed by ordinary requests; on one thread, and on two '
         'threads (one application each) with every schedule of at most one preemption. Non-trivial = another application or request object was '
         'touched between two reads; distinct = distinct (arrangement, parameters, schedule).')
-REQUIRED = ['mapped_error_scenarios', 'scenarios_run', 'alternating_held', 'reads_compared', 'responses_compared', 'threaded_runs', 'counterfactual_reruns',
+REQUIRED = ['settings_arrangements', 'mapped_error_scenarios', 'scenarios_run', 'alternating_held', 'reads_compared', 'responses_compared', 'threaded_runs', 'counterfactual_reruns',
             'nested_scenarios', 'copy_scenarios', 'construct_scenarios', 'default_app_involved']
 ASSUMPTIONS = ['what a handler is shown is observed by value (path, query, header, cookie, body, url_args; status/headers/cookies of the final response)',
                'the counterfactual repair (accessors rebound to per-instance stores) is harness-side and only used to attribute a deviation to the known mechanism']
@@ -432,12 +432,120 @@ def threaded_unit(ctx, unit):
         sched.uninstall()
 
 
+def settings_unit(ctx, unit):
+    """Per-application settings and per-response status text: what one application is told (attributes assigned on its
+    config object, a custom reason phrase on its response) must not show in another application - alternating,
+    non-nested calls on one thread.  Expectations are what the same application answers when it is alone."""
+    import ombott
+    from ombott import HTTPResponse
+
+    def make(cfg=None):
+        app = ombott.Ombott(cfg) if cfg is not None else ombott.Ombott()
+        st = {}
+
+        @app.route('/crash')
+        def crash():
+            raise RuntimeError('secret-detail-' + app.request.query_string)
+
+        @app.route('/where/<x>')
+        def where(x):
+            return 'where:' + app.request.path
+
+        @app.route('/up', method='POST')
+        def up():
+            return 'len=%d' % len(app.request.body.read())
+
+        @app.route('/status')
+        def status():
+            how = app.request.query.get('how')
+            code = int(app.request.query.get('code', '475'))
+            if how == 'phrase':
+                app.response.status = '%d Tenant Quota Exceeded' % code
+            elif how == 'int':
+                app.response.status = code
+            elif how == 'raise':
+                raise HTTPResponse('late', code + 10)
+            elif how == 'phrase_raise':
+                app.response.status = '%d Another Custom Phrase' % (code + 10)
+            return 'status-set'
+        return app
+
+    def observe(app, tag, code=470):
+        # `code` is an unregistered status code that nobody in this process has used before this arrangement
+        out = {}
+        r = call_app(app, make_environ('GET', '/crash', qs='q=' + tag))
+        out['crash'] = (r.status, b'secret-detail' in r.body)
+        r = call_app(app, make_environ('GET', '/where/' + tag, headers={'Host': 'tenant.example'}))
+        out['where'] = (r.status, r.body)
+        r = call_app(app, make_environ('POST', '/up', body=b'x' * 300))
+        out['up'] = (r.status, r.body)
+        r = call_app(app, make_environ('GET', '/status', qs='how=int&code=%d' % code))
+        out['status_int'] = r.status.replace(str(code), 'NNN')
+        r = call_app(app, make_environ('GET', '/status', qs='how=raise&code=%d' % code))
+        out['status_raise'] = r.status.replace(str(code + 10), 'MMM')
+        return out
+
+    # what an application with default settings answers when nobody else has been told anything
+    solo = observe(make(), 'solo')
+    expect = {'crash': ('500 Internal Server Error', False), 'up': ('200 OK', b'len=300'), 'status_int': 'NNN Unknown', 'status_raise': 'MMM Unknown'}
+    for k, v in expect.items():
+        if solo[k] != v:
+            ctx.violation('harness-solo-expectation-differs', f'{k}: {solo[k]} vs {v}', None)
+            return
+    arrangements = []
+    for who in ('default-config app', 'explicit-config app', 'module default app'):
+        for what in ('debug', 'max_body_size', 'domain_map', 'status-phrase'):
+            arrangements.append((who, what))
+    for ai, (who, what) in enumerate(arrangements):
+        code = 471 + (ai % 9) if ai < 9 else 560 + ai
+        other = make() if who != 'explicit-config app' else make({'max_body_size': None})
+        victim_a = make()                       # built with default config as well
+        victim_b = ombott.default_app() if who == 'module default app' else make({'debug': False})
+        if who == 'module default app':
+            for r in list(victim_b.router.routes.values()):
+                victim_b.router.remove(r)
+            victim_b.setup({})
+            src = make()
+            for rule, route in src.router.routes.items():
+                pass
+            # give the default application the same routes
+            tmp = make()
+            for pattern, route in tmp.router.routes.items():
+                for m, rm in route.methods.items():
+                    victim_b.route(route.rule, m, rm.handler)
+        if what == 'debug':
+            other.config.debug = True
+        elif what == 'max_body_size':
+            other.config.max_body_size = 5
+        elif what == 'domain_map':
+            other.config.domain_map = lambda host: 't1'
+            other.config.app_name_header = 'HTTP_X_APP_NAME'
+        else:
+            r = call_app(other, make_environ('GET', '/status', qs='how=phrase&code=%d' % code))
+            r2 = call_app(other, make_environ('GET', '/status', qs='how=phrase_raise&code=%d' % code))
+            if r.status != '%d Tenant Quota Exceeded' % code:
+                ctx.violation('custom-reason-phrase-not-applied-to-own-response', r.status, None)
+        call_app(other, make_environ('GET', '/where/o'))
+        ctx.count('settings_arrangements')
+        ctx.case(('settings', who, what), nontrivial=True)
+        for vname, victim in (('application built with default config', victim_a),):
+            obs = observe(victim, 'v', code)
+            for k, v in expect.items():
+                ctx.count('reads_compared')
+                if obs[k] != v:
+                    ctx.violation(f'applications-interfere:settings:{what}->{k}', f'after {what} was set on another ({who}), the {vname} answers {k}: {obs[k]} (alone: {v})',
+                                  {'unit': {'kind': 'note', 'who': who, 'what': what, 'observed': str(obs[k])}})
+            if obs['where'] != ('200 OK', b'where:/where/v'):
+                ctx.violation(f'applications-interfere:settings:{what}->path', f'after {what} was set on another ({who}): {obs["where"]}', {'unit': {'kind': 'note', 'who': who, 'what': what}})
+    ctx.sample({'arrangements': arrangements})
+
+
 def plan(tier, seed):
     if tier == 'quick':
-        return [{'kind': 'single'}, {'kind': 'threaded', 'pairs': [('A', 'B')], 'stride': 1}, {'kind': 'threaded', 'pairs': [('D', 'A')], 'stride': 2},
+        return [{'kind': 'single'}, {'kind': 'settings'}, {'kind': 'threaded', 'pairs': [('A', 'B')], 'stride': 1}, {'kind': 'threaded', 'pairs': [('D', 'A')], 'stride': 2},
                 {'kind': 'threaded', 'pairs': [('B', 'D')], 'stride': 3}]
     pairs = [('A', 'B'), ('B', 'A'), ('D', 'A'), ('A', 'D'), ('B', 'D'), ('D', 'B')]   # one application on several threads is C08
-    return [{'kind': 'single'}] + [{'kind': 'threaded', 'pairs': [p], 'stride': 1} for p in pairs]
+    return [{'kind': 'single'}, {'kind': 'settings'}] + [{'kind': 'threaded', 'pairs': [p], 'stride': 1} for p in pairs]
 
 
 def run_unit(ctx, unit):
@@ -446,6 +554,8 @@ def run_unit(ctx, unit):
         single_unit(ctx, unit)
     elif k == 'threaded':
         threaded_unit(ctx, unit)
+    elif k == 'settings':
+        settings_unit(ctx, unit)
     elif k == 'scenario':
         W = World()
         for name, klass, steps in scenarios():
